@@ -283,6 +283,10 @@ def main():
         cases = list(mod.generate(rng, a.tier, seed))
         rechecked = core.recheck_sample(cases, random.Random(f"{pid}-{seed}-recheck"))
         rechecked += core.alias_recheck()
+        opt_case = core.optimised_recheck()
+        optimised = opt_case.desc["calls"] if opt_case else 0
+        if opt_case:
+            cases.append(opt_case)
         replies = core.run_driver([c.lines for c in cases]) if not build_failed or os.path.exists(core.DRIVER) else [[] for _ in cases]
     except core.InfraError as e:
         print("INFRA:", e)
@@ -409,6 +413,7 @@ def main():
             "traces_validated_against_impl": compared,
             "predicate_evaluations": npreds,
             "calls_repeated_at_end_of_run": rechecked,
+            "calls_repeated_under_python_O": optimised,
             "disagreements_checked": len(dis),
             "falsifier_search_cases": searched,
             "distribution": {"kinds": dict(kinds), "implementation_outcomes": dict(outcomes)},
